@@ -20,6 +20,46 @@ def run(run, replay=None):
         return
     rng = cl.Rng(run.seed + 7)
     thorough = run.tier == "thorough"
+    # ---- model-independent, directed: verbs of one class registered one after the other in ONE server lifetime, in both orders;
+    # the forms are reference data (the conjugation of 書く / 行く / 泳ぐ / 飲む / 勝つ as every grammar gives it), so this
+    # phase decides even when the translator or the model no longer follows the code
+    REF = {("かかない", "書かない"): [("かか", "書か"), ("かき", "書き"), ("かく", "書く"), ("かけ", "書け"), ("かこ", "書こ"), ("かい", "書い")],
+           ("いかない", "行かない"): [("いか", "行か"), ("いき", "行き"), ("いく", "行く"), ("いけ", "行け"), ("いこ", "行こ"), ("いっ", "行っ")],
+           ("およがない", "泳がない"): [("およが", "泳が"), ("およぎ", "泳ぎ"), ("およぐ", "泳ぐ"), ("およげ", "泳げ"), ("およご", "泳ご"), ("およい", "泳い")],
+           ("のまない", "飲まない"): [("のま", "飲ま"), ("のみ", "飲み"), ("のむ", "飲む"), ("のめ", "飲め"), ("のも", "飲も"), ("のん", "飲ん")],
+           ("かたない", "勝たない"): [("かた", "勝た"), ("かち", "勝ち"), ("かつ", "勝つ"), ("かて", "勝て"), ("かと", "勝と"), ("かっ", "勝っ")],
+           ("あいがない", "相がない"): [("あいが", "相が"), ("あいぎ", "相ぎ"), ("あいぐ", "相ぐ"), ("あいげ", "相げ"), ("あいご", "相ご"), ("あいい", "相い")]}
+    wd0 = S.workdir("c07ref")
+    dic0 = S.make_dictionary(bindir, wd0)
+    ref_fails = []
+    orders = [list(REF), list(reversed(list(REF)))]
+    ref_checked = 0
+    for order in orders:
+        srv0 = S.Server(bindir, dic0, None, workers=4)
+        try:
+            if not srv0.wait_listening():
+                continue
+            done = []
+            for rd_, w_ in order:
+                if srv0.rpc("RegisterWord", {"kind": "Guess", "reading": rd_, "word": w_})[0] != "ok":
+                    continue
+                done.append((rd_, w_))
+                S.wait_until(lambda: (lambda d_: d_ is not None and len(d_["user_entries"]) >= len(done))(srv0.dump()), 4.0)
+            for rd_, w_ in done:
+                for frd, fw in REF[(rd_, w_)]:
+                    ref_checked += 1
+                    got = S.wait_until(lambda: (lambda t: t if t is not None and fw in t else None)(S.texts(srv0.conv(frd))), 2.0)
+                    if got is None:
+                        ref_fails.append(("not-convertible", {"kind": "not-convertible", "phase": "reference-forms"},
+                                          {"registered_in_order": [list(x) for x in done], "registration": ["Guess", rd_, w_],
+                                           "form": [fw, frd], "candidates": S.texts(srv0.conv(frd))}))
+                        break
+        finally:
+            srv0.stop()
+    shutil.rmtree(wd0, ignore_errors=True)
+    for kind_, key_, w__ in ref_fails[:2]:
+        run.failures.append(cl.Failure("oracle", "server violates C07 (%s): %s" % (kind_, json.dumps(w__, ensure_ascii=False)[:300]), witness=w__, key=key_))
+    run.cov["reference_forms_checked"] = ref_checked
     # registrations: every ending the guesser recognises + adjectives + nouns, stems with kanji
     regs = []
     stems = [("書", "か"), ("試", "ため"), ("食", "た"), ("高", "たか"), ("静", "しず"), ("勉強", "べんきょう"), ("珈", "こー")]
